@@ -2,6 +2,8 @@
 per property.  '+' = also record writes through &mut parameters (state effects)."""
 # durable-write primitives recorded as effects ('@' + this pattern after a function name)
 S = '@^(Batch::(put|put_kv|delete|commit)|<DB as (Put|Delete)>::(put|delete))$'
+# interior-mutability containers of Peers: their mutating calls are effects
+D = '@^(DashMap|Entry|OccupiedEntry|VacantEntry)::(insert|remove|entry|alter|clear|retain|and_modify|or_insert_with|or_insert|or_default)$'
 CENSUS = {
     'C03': ['Storage::filter_block' + S, 'Storage::update_block_number' + S],
     'C04': ['Storage::rollback_to_block' + S],
@@ -15,7 +17,8 @@ CENSUS = {
             '<TransactionRpcImpl as TransactionRpc>::fetch_transaction', 'Storage::get_transaction_with_header',
             '~+Peers::mark_fetching_headers_missing', '~+Peers::mark_fetching_txs_missing', '~+Peers::mark_fetching_headers_timeout',
             '~+Peers::mark_fetching_txs_timeout', '~+Peers::fetching_idle_headers', '~+Peers::fetching_idle_txs',
-            '~Peers::get_headers_to_fetch', '~Peers::get_txs_to_fetch'],
+            '~Peers::get_headers_to_fetch', '~Peers::get_txs_to_fetch', '~+Peers::add_fetch_header' + D, '~+Peers::add_fetch_tx' + D,
+            '+FetchInfo::new_add', '~+Peers::remove_fetching_header' + D, '~+Peers::remove_fetching_transaction' + D],
     'C18': ['+PendingTxs::push', '~+PendingTxs::fetch_transaction_hashes_for_broadcast'],
     'C01': ['check_if_response_is_matched', 'check_continuous_headers', 'verify_mmr_proof',
             '<HeaderView as HeaderUtils>::is_parent_of', '<VerifiableHeader as VerifiableHeaderPatch>::patched_is_valid',
